@@ -77,8 +77,8 @@ def hist_c15(case, go):
         if a[2] != "-":
             lab.append("fault-at:" + ("first" if a[2] == "0" else "later"))
             lab.append("fault:" + ("short" if a[3] != "1000" else "full") + ("+err" if a[4] == "1" else ""))
-    else:
-        lab.append("result:" + go.split(" | ")[0])
+    elif a[0] in ("RT", "UT", "GUT"):
+        lab.append("result:" + go.split(" | ")[0][:40])
     return lab
 
 
